@@ -148,7 +148,7 @@ def cases_for(tier):
         cases.append({"w": w, "pats": [[list(p)] for p in pairs[i:i + 64]], "counts": [None, 1, 2, 3]})
     # strings
     strs = []
-    for base, digs in (("0b", "01x?"), ("0o", "073x"), ("0x", "0fa?")):
+    for base, digs in (("0b", "01x?X"), ("0o", "073x?X"), ("0x", "0fax?X")):
         for n in (1, 2, 3):
             for t in itertools.product(digs, repeat=n):
                 s = base + "".join(t)
